@@ -33,14 +33,24 @@ func TestMain(m *testing.M) {
 }
 
 var (
-	pool = gwbox.NewPool(4)
+	pool = gwbox.NewPool(5) // 0, 1, 4: endpoints of c1; 2, 3: endpoints of c2
 	seq  int64
 )
 
+// third: index of a third endpoint serving the "nodes" policy, or -1
+var third = map[string]int{"c1": 4, "c2": -1}
+
 func clusterObj(name string, a, b int, both bool) *proxyv1alpha1.UpstreamCluster {
+	return clusterObj3(name, a, b, both, both && third[name] >= 0)
+}
+
+func clusterObj3(name string, a, b int, both, withThird bool) *proxyv1alpha1.UpstreamCluster {
 	ups := []*gwbox.Upstream{pool.Upstreams[a]}
 	if both {
 		ups = append(ups, pool.Upstreams[b])
+	}
+	if withThird {
+		ups = append(ups, pool.Upstreams[third[name]])
 	}
 	c := gwbox.ClusterObject(name, "gateway-secret-token", ups...)
 	pods := proxyv1alpha1.DispatchPolicy{Strategy: proxyv1alpha1.RoundRobin, Rules: []proxyv1alpha1.DispatchPolicyRule{{Verbs: []string{"*"}, APIGroups: []string{"*"}, Resources: []string{"pods"}}}}
@@ -50,6 +60,11 @@ func clusterObj(name string, a, b int, both bool) *proxyv1alpha1.UpstreamCluster
 		rest.UpstreamSubset = []string{pool.Upstreams[b].URL}
 	}
 	c.Spec.DispatchPolicies = []proxyv1alpha1.DispatchPolicy{pods, rest}
+	if withThird {
+		nodes := proxyv1alpha1.DispatchPolicy{Strategy: proxyv1alpha1.RoundRobin, Rules: []proxyv1alpha1.DispatchPolicyRule{{Verbs: []string{"*"}, APIGroups: []string{"*"}, Resources: []string{"nodes"}}},
+			UpstreamSubset: []string{pool.Upstreams[third[name]].URL}}
+		c.Spec.DispatchPolicies = []proxyv1alpha1.DispatchPolicy{pods, nodes, rest}
+	}
 	// every cluster is also reachable under an alias host name
 	c.Spec.SecureServing.ServerNames = []string{name + "-alias.example.com"}
 	return c
@@ -147,9 +162,9 @@ func quick(g *gwbox.Gateway, host, path string) (int, int) {
 }
 
 func TestPropRemovalCutsInflight(t *testing.T) {
-	sub := stats.NewSub("removal-timing", "rapid: what is removed (cluster c1 / the first endpoint of c1), when relative to a target request on that endpoint (before it is sent / while the stub delays its headers / after j = 1..5 streamed chunks), 0-3 bystanders (streams or held requests on the other endpoint of c1 and on cluster c2); oracle: the target ends at the client and its context dies at the stub within 2 s of the removal, and a target cut before the upstream answered gets a 5xx from the gateway (never a 2xx); the removed endpoint (optionally disabled and re-enabled before; optionally disabled - drained - while the target is in flight and still disabled when removed) receives no health probe later than 300 ms after the removal (probe period shortened to 20 ms by the verif hook); afterwards requests to the deleted cluster - by its name and by its alias server name - get 503 and nothing is forwarded, the removed endpoint is never picked again; bystander streams keep delivering chunks for 300 ms and finish normally when released, held bystander requests return 200; non-trivial = the removal happens while the target is connecting or streaming and there is >= 1 bystander; distinct by FNV-64 of the plan")
+	sub := stats.NewSub("removal-timing", "rapid: what is removed (cluster c1 / the first endpoint of c1 / two of its three endpoints in ONE update, with a second request in flight on the other removed endpoint), when relative to a target request on that endpoint (before it is sent / while the stub delays its headers / after j = 1..5 streamed chunks), 0-3 bystanders (streams or held requests on the other endpoint of c1 and on cluster c2); oracle: the target ends at the client and its context dies at the stub within 2 s of the removal, and a target cut before the upstream answered gets a 5xx from the gateway (never a 2xx); the removed endpoint (optionally disabled and re-enabled before; optionally disabled - drained - while the target is in flight and still disabled when removed) receives no health probe later than 300 ms after the removal (probe period shortened to 20 ms by the verif hook); afterwards requests to the deleted cluster - by its name and by its alias server name - get 503 and nothing is forwarded, the removed endpoint is never picked again; bystander streams keep delivering chunks for 300 ms and finish normally when released, held bystander requests return 200; non-trivial = the removal happens while the target is connecting or streaming and there is >= 1 bystander; distinct by FNV-64 of the plan")
 	stats.Check(t, stats.N(20, 150), func(t *rapid.T) {
-		what := rapid.SampledFrom([]string{"cluster", "endpoint"}).Draw(t, "remove")
+		what := rapid.SampledFrom([]string{"cluster", "endpoint", "two endpoints in one update"}).Draw(t, "remove")
 		when := rapid.SampledFrom([]string{"before", "connecting", "streaming", "streaming"}).Draw(t, "when")
 		j := rapid.IntRange(1, 5).Draw(t, "chunksBefore")
 		nBy := rapid.IntRange(0, 3).Draw(t, "bystanders")
@@ -236,6 +251,12 @@ func TestPropRemovalCutsInflight(t *testing.T) {
 			target = startStream(g, targetHost, "/api/v1/namespaces/default/pods", when == "streaming")
 			streams = append(streams, target)
 		}
+		// when two endpoints go away in ONE update, a second request is in flight on the other one of them
+		var target2 *stream
+		if what == "two endpoints in one update" {
+			target2 = startStream(g, "c1", "/api/v1/nodes", rapid.Bool().Draw(t, "secondTargetStreaming"))
+			streams = append(streams, target2)
+		}
 		// wait until everything is in the intended state
 		for _, s := range streams {
 			st := pool.Started(s.id)
@@ -281,8 +302,14 @@ func TestPropRemovalCutsInflight(t *testing.T) {
 			if _, err := g.Box.Delete(c1); err != nil {
 				t.Fatalf("delete failed: %v", err)
 			}
+		} else if what == "endpoint" {
+			// endpoint 0 goes, 1 and the third endpoint stay
+			if res, err := g.Box.Apply(clusterObj3("c1", 1, 0, false, true)); err != nil || res.RequeueAfter > 0 {
+				t.Fatalf("endpoint removal failed: %v %v", err, res)
+			}
 		} else {
-			if res, err := g.Box.Apply(clusterObj("c1", 1, 0, false)); err != nil || res.RequeueAfter > 0 {
+			// endpoint 0 AND the third endpoint go in one update, 1 stays
+			if res, err := g.Box.Apply(clusterObj3("c1", 1, 0, false, false)); err != nil || res.RequeueAfter > 0 {
 				t.Fatalf("endpoint removal failed: %v %v", err, res)
 			}
 		}
@@ -309,6 +336,18 @@ func TestPropRemovalCutsInflight(t *testing.T) {
 			}
 			sub.Note("target cut %.1f ms after the removal (%s, %s)", float64(ended.Sub(removedAt))/1e6, what, when)
 		}
+		if target2 != nil {
+			ok := waitFor(2*time.Second, func() bool {
+				_, ended, _, _ := target2.snapshot()
+				seen := pool.Find(target2.id)
+				return !ended.IsZero() && len(seen) == 1 && !seen[0].CtxDoneAt.IsZero()
+			})
+			if !ok {
+				_, ended, _, st := target2.snapshot()
+				t.Fatalf("2 s after an update that removed two endpoints the request being proxied to the second of them is still hanging (client ended: %v, status %d)\nplan: %s", !ended.IsZero(), st, plan)
+			}
+			sub.Class("two-endpoints-removed-by-one-update")
+		}
 		// ---- health probing of the removed endpoint stops (probe period 20 ms): nothing later than 300 ms after the removal
 		probesChecked := false
 		defer func() {
@@ -321,9 +360,18 @@ func TestPropRemovalCutsInflight(t *testing.T) {
 				time.Sleep(d)
 			}
 			time.Sleep(80 * time.Millisecond)
-			for _, p := range pool.Upstreams[0].Probes() {
-				if p.After(removedAt.Add(300 * time.Millisecond)) {
-					t.Fatalf("the removed endpoint still receives health probes (%v after the removal)\nplan: %s", p.Sub(removedAt), plan)
+			removed := []int{0}
+			if what != "endpoint" {
+				removed = append(removed, third["c1"])
+			}
+			if what == "cluster" {
+				removed = append(removed, 1)
+			}
+			for _, ri := range removed {
+				for _, p := range pool.Upstreams[ri].Probes() {
+					if p.After(removedAt.Add(300 * time.Millisecond)) {
+						t.Fatalf("the removed endpoint %d still receives health probes (%v after the removal)\nplan: %s", ri, p.Sub(removedAt), plan)
+					}
 				}
 			}
 			probesChecked = true
@@ -341,11 +389,11 @@ func TestPropRemovalCutsInflight(t *testing.T) {
 		} else {
 			for k := 0; k < 4; k++ {
 				st, up := quick(g, "c1", "/api/v1/namespaces/default/pods")
-				if up == 0 {
-					t.Fatalf("the removed endpoint was picked again (status %d)\nplan: %s", st, plan)
+				if up == 0 || (what != "endpoint" && up == third["c1"]) {
+					t.Fatalf("the removed endpoint %d was picked again (status %d)\nplan: %s", up, st, plan)
 				}
-				if st != 200 || up != 1 {
-					t.Fatalf("after removing one endpoint the other endpoint of the cluster does not serve (status %d upstream %d)\nplan: %s", st, up, plan)
+				if st != 200 || (up != 1 && up != third["c1"]) {
+					t.Fatalf("after the removal the remaining endpoints of the cluster do not serve (status %d upstream %d)\nplan: %s", st, up, plan)
 				}
 			}
 		}
